@@ -287,3 +287,56 @@ def py_callable(node):
   if node.get("d2") is not None:
     obj.deriv2 = expr_pyfunc(node["d2"])
   return obj
+
+
+# ------------------------------------------------------------------ structured INI view
+
+def model_items(model):
+  """Ordered [(section, [(key, value), ...])] of the plain-style file of a model."""
+  st = Style(plain=True)
+  secs = []
+  tab = model.get("tab", {})
+  items = [("target", model["target"])] if model.get("target") is not None else []
+  for k in ("nr", "dr", "cutoff", "nrho", "drho", "cutoff_rho"):
+    if k in tab and tab[k] is not None:
+      items.append((k, fnum(tab[k])))
+  secs.append(("Tabulation", items))
+  if model.get("pair") is not None:
+    secs.append(("Pair", [("%s-%s" % (a, b), node_text(n, st)) for a, b, n in model["pair"]]))
+  for secname, key in (("EAM-ADP-Dipole", "dipole"), ("EAM-ADP-Quadrupole", "quadrupole")):
+    if model.get(key) is not None:
+      secs.append((secname, [("%s-%s" % (a, b), node_text(n, st)) for a, b, n in model[key]]))
+  if model.get("embed") is not None:
+    secs.append(("EAM-Embed", [(a, node_text(n, st)) for a, n in model["embed"]]))
+  if model.get("density") is not None:
+    its = []
+    for ent in model["density"]:
+      its.append((ent[0], node_text(ent[1], st)) if len(ent) == 2 else ("%s->%s" % (ent[0], ent[1]), node_text(ent[2], st)))
+    secs.append(("EAM-Density", its))
+  if model.get("forms"):
+    secs.append(("Potential-Form", [("%s(%s)" % (f["name"], ",".join(f["params"])), expr_text(f["expr"])) for f in model["forms"]]))
+  for tbl in model.get("tables") or []:
+    its = []
+    if tbl.get("as", "xy") == "xy":
+      its.append(("xy", " ".join("%s %s" % (fnum(x), fnum(y)) for x, y in zip(tbl["x"], tbl["y"]))))
+    else:
+      its.append(("x", " ".join(fnum(x) for x in tbl["x"])))
+      its.append(("y", " ".join(fnum(y) for y in tbl["y"])))
+    secs.append(("Table-Form:%s" % tbl["name"], its))
+  if model.get("species"):
+    its = []
+    for sp_, props in model["species"].items():
+      for pk, pv in props.items():
+        its.append(("%s.%s" % (sp_, pk), fnum(pv) if not isinstance(pv, str) else pv))
+    secs.append(("Species", its))
+  return secs
+
+
+def items_text(secs):
+  out = []
+  for name, items in secs:
+    lines = ["[%s]" % name]
+    for k, v in items:
+      lines.append("%s : %s" % (k, v))
+    out.append("\n".join(lines))
+  return "\n\n".join(out) + "\n"
